@@ -220,6 +220,10 @@ def edge_other_scopes(tier):
         S("hset", type="HU8", mode="bfs", slots=2, cap=2, vals="0,1,255"),
         S("hset", type="HWeak", mode="bfs", slots=2, cap=2, vals="0,1,2,4294967295"),
         S("hset", type="HU32", mode="bfs", slots=2, cap=0, vals="0,1"),
+        # oracle-only: value types whose Default is not all-zero bytes
+        S("hset", type="HBps", mode="bfs", slots=2, cap=2, vals="0,1,10000", nodriver=1),
+        S("tree", type="T32u32bps", mode="bfs", slots=2, cap=2, keys="0,1,2", updates=0, nodriver=1),
+        S("tree", type="T8u8bps", mode="bfs", slots=2, cap=2, max_slots=3, keys="0,1,2", updates=0, nodriver=1),
         S("aset", type="A8u8", mode="bfs", slots=0, vals="0,1,255"),
         S("aset", type="A8u8", mode="bfs", slots=1, vals="0,1,255"),
         S("aset", type="A16u32", mode="bfs", slots=2, vals="0,1,4294967295"),
